@@ -28,6 +28,10 @@ func init() {
 		Gen:   func(r *Rng, tier string, emit func(string)) { c11Gen(r, tier, emit, false) },
 		Exec:  func(op string) (string, *Violation) { return c11Exec(op, 3) },
 		Class: c11Class,
+		Extra: func() map[string]interface{} {
+			return map[string]interface{}{"time_travel_comparisons_commit_regime": c11TT[0], "time_travel_comparisons_timestamp_regime": c11TT[1],
+				"time_travel_mixed_regime_cases_skipped": c11TT[2]}
+		},
 	})
 	register(&Prop{
 		ID: "C12",
@@ -40,6 +44,9 @@ func init() {
 }
 
 var c12Repeats = 20
+
+// ground-truth comparisons made by the time-travel oracle: commit regime, timestamp regime, cases skipped as mixed
+var c11TT [3]int64
 
 const c11Start = 1347442203 // osm.CommitInfoStart
 
@@ -469,18 +476,59 @@ func c11SameUpToTieOrder(a, b string) bool {
 // and every time t in [commit_i, commit_{i+1} - threshold), applying the updates up to t gives, for every
 // child with a consistent history, the version that was current at t.
 func (c *c11Case) timeTravel(o c11Out) *Violation {
+	// two regimes have a ground truth: every version of parent and children carries a commit time (the
+	// effective time of a version is its commit; the window of parent i is [commit i, commit i+1 - thr)), or none
+	// does (the effective time is the timestamp; the child reference is chosen by the grouping heuristic, so the
+	// window only starts once the grouping threshold has passed: [ts i + thr, ts i+1 - thr)). Mixed histories: nothing claimed.
+	nCommit, nTs := 0, 0
+	count := func(has bool, commit int64) {
+		if has && commit >= c11Start {
+			nCommit++
+		} else {
+			nTs++
+		}
+	}
 	for _, p := range c.ps {
-		if !p.hasCommit || p.commit < c11Start {
+		count(p.hasCommit, p.commit)
+	}
+	for _, l := range c.hs {
+		for _, ch := range l {
+			count(ch.hasCommit, ch.commit)
+		}
+	}
+	if nCommit > 0 && nTs > 0 {
+		c11TT[2]++
+		return nil
+	}
+	tsRegime := nTs > 0
+	if tsRegime {
+		if c.thr < 0 {
 			return nil
+		}
+		// from here on "commit" is the effective time
+		ps := append([]c11Parent{}, c.ps...)
+		for i := range ps {
+			ps[i].commit = ps[i].ts
+		}
+		hs := map[int64][]c11Child{}
+		for fid, l := range c.hs {
+			s := append([]c11Child{}, l...)
+			for k := range s {
+				s[k].commit = s[k].ts
+			}
+			hs[fid] = s
+		}
+		cc := *c
+		cc.ps, cc.hs = ps, hs
+		c = &cc
+		for i := 1; i < len(c.ps); i++ {
+			if c.ps[i].commit < c.ps[i-1].commit {
+				return nil
+			}
 		}
 	}
 	sorted := map[int64][]c11Child{}
 	for fid, l := range c.hs {
-		for _, ch := range l {
-			if !ch.hasCommit || ch.commit < c11Start {
-				return nil
-			}
-		}
 		s := append([]c11Child{}, l...)
 		sort.Slice(s, func(a, b int) bool { return s[a].ver < s[b].ver })
 		for k := 1; k < len(s); k++ {
@@ -510,7 +558,7 @@ func (c *c11Case) timeTravel(o c11Out) *Violation {
 		}
 		// the annotation itself: every slot carries the version current at the parent's commit, and every
 		// update is a version committed after this parent version and before the next one
-		{
+		if !tsRegime {
 			var us osm.Updates
 			type slot struct {
 				ver int
@@ -568,8 +616,13 @@ func (c *c11Case) timeTravel(o c11Out) *Violation {
 		} else {
 			ts = append(ts, p.commit+1000000)
 		}
+		begin := p.commit
+		if tsRegime {
+			begin = p.commit + c.thr
+			ts = append(ts, begin)
+		}
 		for _, t := range ts {
-			if t < p.commit || t >= end {
+			if t < begin || t >= end {
 				continue
 			}
 			// apply on a copy
@@ -615,11 +668,24 @@ func (c *c11Case) timeTravel(o c11Out) *Violation {
 				if c0, ok0 := currentAt(rf.fid, p.commit); !ok0 || !c0.vis {
 					continue
 				}
+				if tsRegime {
+					if c0, ok0 := currentAt(rf.fid, begin); !ok0 || !c0.vis {
+						continue
+					}
+				}
 				k := kids[j]
+				if tsRegime {
+					c11TT[1]++
+				} else {
+					c11TT[0]++
+				}
 				if int64(k.ver) != cur.ver || int64(k.cs) != cur.cs || k.lat != float64(cur.lat)*0.5 || k.lon != float64(cur.lon)*0.5 {
 					sig := "time-travel-mismatch"
-					if t == p.commit {
+					if t == p.commit && !tsRegime {
 						sig = "child-not-current-at-commit"
+					}
+					if tsRegime {
+						sig = "time-travel-mismatch-timestamp-regime"
 					}
 					return &Violation{Signature: sig, Text: fmt.Sprintf("parent version %d (commit %d), child index %d (fid %d): after ApplyUpdatesUpTo(%d) version %d cs %d, but version %d cs %d was current at that time (window ends %d)", i+1, p.commit, j, rf.fid, t, k.ver, k.cs, cur.ver, cur.cs, end)}
 				}
